@@ -1,4 +1,6 @@
 import DirectVerif.Model.BatchSep
+import DirectVerif.Lemmas.C18Prims
+import DirectVerif.Lemmas.C18Coil
 import Mathlib.Algebra.BigOperators.Group.Finset.Basic
 import Mathlib.Data.Fintype.Basic
 /-!
@@ -174,6 +176,322 @@ theorem standardize_perm_equivariant {p q : List (G × G)} (h : p.Perm q) : (sta
   rw [reduce_perm_invariant h]
   exact h.map _
 
+
+/-! # Phase 3 — whole forward passes as data-flow graphs over generated primitive tables -/
+
+/-! ## permutes, concatenation -/
+
+/-- **a `permute` that keeps the batch axis first is a per-sample operation** (it is a product of adjacent axis swaps
+none of which touches axis 0) — for the literal found at every `permute` call site of `direct/nn` -/
+theorem permute_keeps_batch_separable (perm : List Nat) (h : perm.head? = some 0 ∨ perm = []) : Separable (batchedPermute perm) := by
+  unfold batchedPermute
+  apply sep_foldl (fun d => batchedAlong transpose01 d)
+  intro d hd
+  apply along_separable
+  rcases h with h | h
+  · exact sortSwaps_swaps_pos perm h d (List.mem_reverse.mp hd)
+  · subst h; simp [sortSwaps] at hd
+
+/-- whereas moving the batch axis is not: swapping axes 0 and 1 exchanges samples and rows -/
+theorem permute_moving_batch_not_separable : ¬ Separable (batchedPermute [1, 0]) := by
+  rintro ⟨f₁, hf⟩
+  have h1 := hf [.node [.leaf 1, .leaf 2]]
+  have e1 : batchedPermute [1, 0] [.node [.leaf 1, .leaf 2]] = [.node [.leaf 1], .node [.leaf 2]] := rfl
+  rw [e1] at h1
+  simp at h1
+
+/-- `cat` / `stack` of two separable branches along any axis other than the batch axis -/
+theorem cat_separable {α : Type} (d : Nat) (hd : 1 ≤ d) {f g : List α → List NT} (hf : Separable f) (hg : Separable g) :
+    Separable (fun xs => batchedCat d (f xs) (g xs)) := by
+  obtain ⟨k, rfl⟩ : ∃ k, d = k + 1 := ⟨d - 1, by omega⟩
+  simp only [batchedCat_succ]
+  exact sep_zipWith _ hf hg
+
+/-- along the batch axis it changes the number of samples: not a batched operation at all -/
+theorem cat_axis0_changes_batch (a b : List NT) : (batchedCat 0 a b).length = a.length + b.length := by
+  rw [batchedCat_zero, List.length_append]
+
+/-! ## the closure over data-flow graphs -/
+
+/-- an interpretation is sound when every primitive the judgement accepts denotes a separable operation -/
+def SoundInterp (I : Interp) : Prop := ∀ p : Prim, p.ok = true → Separable (I.prim p)
+
+/-- **closure**: whatever way a forward pass wires per-sample kernels, accepted primitives and sample-wise combinations
+together, the result is separable -/
+theorem prog_separable (I : Interp) (hI : SoundInterp I) (e : Prog) (h : e.prims.all Prim.ok = true) : Separable (e.eval I) := by
+  induction e with
+  | input => exact sep_id
+  | kern n e ih => exact sep_comp (f := e.eval I) (g := List.map (I.kern n)) (ih h) (sep_map _)
+  | prim p e ih =>
+    simp only [Prog.prims, List.all_cons, Bool.and_eq_true] at h
+    exact sep_comp (f := e.eval I) (g := I.prim p) (ih h.2) (hI p h.1)
+  | zip n a b iha ihb =>
+    simp only [Prog.prims, List.all_append, Bool.and_eq_true] at h
+    exact sep_zipWith (f := a.eval I) (g := b.eval I) _ (iha h.1) (ihb h.2)
+
+theorem natAxis_pos (rank : Nat) (a : Int) (h0 : a ≠ 0) (hneg : a < 0 → 1 ≤ a + rank) : 1 ≤ natAxis rank a := by
+  unfold natAxis normAxis
+  split <;> omega
+
+theorem swapPerm_head (rank a b : Nat) (ha : 1 ≤ a) (hb : 1 ≤ b) :
+    (swapPerm rank a b).head? = some 0 ∨ swapPerm rank a b = [] := by
+  unfold swapPerm
+  cases rank with
+  | zero => right; rfl
+  | succ r =>
+    left
+    rw [List.range_succ_eq_map]
+    simp only [List.map_cons, List.head?_cons, Option.some.injEq]
+    have h1 : ¬ (0 = a) := by omega
+    have h2 : ¬ (0 = b) := by omega
+    simp [h1, h2]
+
+theorem axesAvoid_form0 (args : List Int) (h : axesAvoidBatch 0 args = true) : ∀ a ∈ args, a ≠ 0 := by
+  intro a ha
+  simp only [axesAvoidBatch, beq_self_eq_true, Bool.true_and, Bool.and_eq_true, Bool.not_eq_true',
+    List.all_eq_true, bne_iff_ne, ne_eq, Nat.reduceBEq, Bool.false_and, Bool.or_false] at h
+  exact h.2 a ha
+
+theorem axesAvoid_form3 (args : List Int) (h : axesAvoidBatch 3 args = true) : 1 ≤ args.headD 1 := by
+  simp only [axesAvoidBatch, Nat.reduceBEq, Bool.false_and, Bool.false_or, beq_self_eq_true, Bool.true_and, Bool.or_false,
+    Bool.and_eq_true, Bool.not_eq_true', List.all_eq_true, decide_eq_true_eq] at h
+  cases args with
+  | nil => simp at h
+  | cons a rest => exact h.2 a (by simp)
+
+theorem alongSem_separable (rank : Prim → Nat) (along opq : String → NT → NT) (p : Prim)
+    (hr : ∀ a ∈ p.args, a < 0 → 1 ≤ a + rank p) (h : p.form = 0 ∨ p.form = 3 → axesAvoidBatch p.form p.args = true) :
+    Separable (alongSem rank along opq p) := by
+  unfold alongSem
+  by_cases h0 : p.form = 0
+  · simp only [h0, beq_self_eq_true, if_true]
+    apply foldl_along_separable
+    intro d hd
+    rw [List.mem_mergeSort] at hd
+    obtain ⟨a, ha, rfl⟩ := List.mem_map.mp hd
+    have h := h (Or.inl h0)
+    rw [h0] at h
+    exact natAxis_pos _ _ (axesAvoid_form0 _ h a ha) (hr a ha)
+  · have e0 : (p.form == 0) = false := by simp [h0]
+    by_cases h3 : p.form = 3
+    · simp only [h3, beq_self_eq_true, if_true]
+      apply foldl_along_separable
+      intro d hd
+      have hd' := (List.mem_filter.mp (List.mem_reverse.mp hd)).2
+      simp only [decide_eq_true_eq] at hd'
+      have h := h (Or.inr h3)
+      rw [h3] at h
+      have := axesAvoid_form3 _ h
+      omega
+    · have e3 : (p.form == 3) = false := by simp [h3]
+      simp only [e0, e3, Bool.false_eq_true, if_false]
+      exact sep_map _
+
+theorem permSem_separable (rank : Prim → Nat) (p : Prim) (hr : ∀ a ∈ p.args, a < 0 → 1 ≤ a + rank p)
+    (h : (if p.form == 0 then p.args.head? == some 0 else p.form == 1 && !p.args.isEmpty && p.args.all (· != 0)) = true) :
+    Separable (permSem rank p) := by
+  unfold permSem
+  by_cases h0 : p.form = 0
+  · simp only [h0, beq_self_eq_true, if_true] at h ⊢
+    apply permute_keeps_batch_separable
+    left
+    cases hargs : p.args with
+    | nil => simp [hargs] at h
+    | cons a rest =>
+      simp only [hargs, List.head?_cons, beq_iff_eq, Option.some.injEq] at h
+      subst h
+      rfl
+  · have e0 : (p.form == 0) = false := by simp [h0]
+    simp only [e0, Bool.false_eq_true, if_false, Bool.and_eq_true, Bool.not_eq_true'] at h ⊢
+    apply permute_keeps_batch_separable
+    obtain ⟨⟨_, hne⟩, hall⟩ := h
+    have hall' : ∀ a ∈ p.args, a ≠ 0 := fun a ha => by simpa using List.all_eq_true.mp hall a ha
+    cases hargs : p.args with
+    | nil => simp [hargs] at hne
+    | cons a rest =>
+      rw [hargs] at hall' hr
+      apply swapPerm_head
+      · simp only [List.headD_cons]
+        exact natAxis_pos _ _ (hall' a (by simp)) (hr a (by simp))
+      · cases rest with
+        | nil =>
+          simp only [List.getD_cons_succ, List.getD_nil]
+          exact natAxis_pos _ _ (by omega) (by omega)
+        | cons b rest' =>
+          simp only [List.getD_cons_succ, List.getD_cons_zero]
+          exact natAxis_pos _ _ (hall' b (by simp)) (hr b (by simp))
+
+/-- **the standard interpretation is sound**, provided negative axes address axes of the operand other than the first
+(`|a| < rank`): reductions, along-axis operations, flattening, permutes, transposes, batch-keeping reshapes -/
+theorem stdInterp_sound (rank : Prim → Nat) (along : String → NT → NT) (opq : String → NT → NT) (zp : String → NT → NT → NT)
+    (hr : ∀ p : Prim, ∀ a ∈ p.args, a < 0 → 1 ≤ a + rank p) : SoundInterp (stdInterp rank along opq zp) := by
+  intro p hok
+  show Separable (fun batch => if p.ok then
+      (if p.family == 0 || p.family == 1 || p.family == 4 then alongSem rank along opq p batch
+       else if p.family == 2 then permSem rank p batch else batch.map (opq p.op))
+    else batchedAlong (along p.op) 0 batch)
+  simp only [hok, if_true]
+  by_cases hA : (p.family == 0 || p.family == 1 || p.family == 4) = true
+  · simp only [hA, if_true]
+    apply alongSem_separable rank along opq p (hr p)
+    unfold Prim.ok at hok
+    simp only [Bool.or_eq_true, beq_iff_eq] at hA
+    rcases hA with (hA | hA) | hA
+    · rw [hA] at hok
+      simp only [Bool.or_eq_true, Bool.and_eq_true, beq_iff_eq] at hok
+      rcases hok with h | ⟨h1, _⟩
+      · exact fun _ => h
+      · -- `form = 1` with a warning-only sink: the value never reaches the output; `alongSem` is a per-sample map
+        intro hf
+        omega
+    · rw [hA] at hok; exact fun _ => hok
+    · rw [hA] at hok
+      simp only [Bool.and_eq_true, beq_iff_eq] at hok
+      intro _
+      simp [axesAvoidBatch, hok.1.1, hok.1.2, hok.2]
+  · have eA : (p.family == 0 || p.family == 1 || p.family == 4) = false := by simpa using hA
+    simp only [eA, Bool.false_eq_true, if_false]
+    by_cases h2 : p.family = 2
+    · simp only [h2, beq_self_eq_true, if_true]
+      apply permSem_separable rank p (hr p)
+      unfold Prim.ok at hok
+      rw [h2] at hok
+      exact hok
+    · have e2 : (p.family == 2) = false := by simp [h2]
+      simp only [e2, Bool.false_eq_true, if_false]
+      exact sep_map _
+
+/-- a call site the judgement rejects denotes (in the standard interpretation) the same operation along the batch axis -/
+theorem stdInterp_rejected (rank : Prim → Nat) (along : String → NT → NT) (opq : String → NT → NT) (zp : String → NT → NT → NT)
+    (p : Prim) (h : p.ok = false) : (stdInterp rank along opq zp).prim p = batchedAlong (along p.op) 0 := by
+  funext batch
+  simp [stdInterp, h]
+
+/-- **every zoo model whose generated table passes is separable, however its forward wires its primitives**: for a model
+row `m` of the generated `modelFuncs` with `m.ok primTable`, any data-flow graph that only uses primitives of the
+functions the model executes denotes a separable operation -/
+theorem model_separable (tbl : List FuncRow) (m : ModelRow) (hm : m.ok tbl = true) (I : Interp) (hI : SoundInterp I) (e : Prog)
+    (he : ∀ p ∈ e.prims, p ∈ m.prims tbl) : Separable (e.eval I) := by
+  apply prog_separable I hI
+  rw [List.all_eq_true]
+  intro p hp
+  have hp' := he p hp
+  unfold ModelRow.prims at hp'
+  obtain ⟨i, hi, hpi⟩ := List.mem_flatMap.mp hp'
+  unfold ModelRow.ok at hm
+  have := List.all_eq_true.mp hm i hi
+  cases hf : tbl[i]? with
+  | none => simp [hf] at hpi
+  | some f =>
+    simp only [hf] at this hpi
+    unfold FuncRow.ok at this
+    simp only [Bool.and_eq_true] at this
+    exact List.all_eq_true.mp this.1 p hpi
+
+/-! ## `batch * coil` folds -/
+
+/-- **`MultiCoil.forward` with `coil_to_batch`** (fold coils into the batch, run the model, un-fold): a sample's output is
+the same alone or anywhere in a batch of arbitrary companions (all with `c` coils) -/
+theorem multiCoilFold_batch_independent {α β : Type} (f : α → β) (c : Nat) (pre post : List (List α)) (x : List α)
+    (h : ∀ y ∈ pre ++ x :: post, y.length = c) :
+    (multiCoilFold f c (pre ++ x :: post))[pre.length]? = (multiCoilFold f c [x])[0]? := by
+  rw [multiCoilFold_eq f c _ h, multiCoilFold_eq f c [x] (by intro y hy; simp at hy; rw [hy]; exact h x (by simp))]
+  simp
+
+/-- the coil-major un-fold agrees with the row-major one for a single sample … -/
+theorem unmergeCB_batch_one {α : Type} [Inhabited α] (c : Nat) (ys : List α) (h : ys.length = c) :
+    unmergeCB 1 c ys = unmergeBC 1 c ys := by
+  unfold unmergeCB unmergeBC
+  simp only [List.range_one, List.map_cons, List.map_nil, Nat.mul_one, Nat.add_zero, Nat.zero_mul, List.drop_zero, List.cons.injEq, and_true]
+  rw [← h, List.take_length]
+  apply List.ext_getElem?
+  intro i
+  by_cases hi : i < ys.length
+  · simp [List.getElem?_range hi, List.getElem?_eq_getElem hi, List.getD_eq_getElem?_getD]
+  · simp [List.getElem?_eq_none (Nat.le_of_not_lt hi)]
+    omega
+
+/-- … but mixes the coils of different samples as soon as there are two samples with two coils -/
+theorem unmergeCB_mixes_samples :
+    (unmergeCB 2 2 (mergeBC [[10, 11], [20, 21]]))[0]? = some [10, 20] ∧ (unmergeBC 2 2 (mergeBC [[10, 11], [20, 21]]))[0]? = some [10, 11] := by
+  decide
+
+/-! ## effects -/
+
+/-- **a call that performs no write** (no attribute, buffer, class attribute, module-level name, memo table, process-wide
+switch) leaves the store as it was and answers every call of any history as a function of the initial store and that
+call's input -/
+theorem call_without_writes_is_pure {ι ο : Type} (c : Call ι ο) (h : ∀ s x, (c s x).1 = []) (s : Store) (history : List ι) :
+    runCalls c.toModule s history = (s, history.map fun x => (c s x).2) := by
+  apply no_hidden_state_across_calls
+  intro s x
+  simp [Call.toModule, h, applyWrites]
+
+/-- **interleaved instances**: two instances sharing class / module / process state, neither of which writes, answer any
+interleaved history exactly as they would alone on a fresh store -/
+theorem interleaved_instances_independent {ι ο : Type} (a b : Call ι ο) (ha : ∀ s x, (a s x).1 = []) (hb : ∀ s x, (b s x).1 = [])
+    (s : Store) (history : List (ι ⊕ ι)) :
+    runTwo a b s history = (s, history.map fun x => match x with | .inl x => (a s x).2 | .inr x => (b s x).2) := by
+  induction history with
+  | nil => rfl
+  | cons x xs ih =>
+    cases x with
+    | inl x => simp only [runTwo, ha, applyWrites, List.foldl_nil, ih, List.map_cons]
+    | inr x => simp only [runTwo, hb, applyWrites, List.foldl_nil, ih, List.map_cons]
+
+/-- a class-level cache written by one instance changes what the *other* instance answers (witness) -/
+theorem shared_class_state_witness :
+    (runTwo (fun s (x : Int) => ([(Loc.cls "last", x)], x + s (Loc.cls "last")))
+            (fun s (x : Int) => ([], x + s (Loc.cls "last"))) (fun _ => 0) [.inr 5, .inl 7, .inr 5]).2 = [5, 7, 12] := by
+  decide
+
+/-! ## coil expressions -/
+
+/-- **every network built from per-coil maps, element-wise combinations of coil tensors, broadcasts of images and coil
+sums reconstructs the same image for every coil order** (Gaussian integers as the scalar type of the executable model) -/
+theorem coil_program_invariant (i : IExpr G) (σ : List Nat) (inp : List (G × G)) (hσ : σ.Perm (List.range inp.length)) :
+    i.eval cadd (0, 0) (gather σ inp) = i.eval cadd (0, 0) inp :=
+  iexpr_invariant cadd (0, 0) cadd_comm cadd_assoc i σ inp hσ
+
+/-- … and every k-space-valued output is reordered with the coils -/
+theorem coil_program_equivariant (e : CExpr G) (σ : List Nat) (inp : List (G × G)) (hσ : σ.Perm (List.range inp.length)) :
+    e.eval cadd (0, 0) (gather σ inp) = gather σ (e.eval cadd (0, 0) inp) :=
+  cexpr_equivariant cadd (0, 0) cadd_comm cadd_assoc e σ inp hσ
+
+/-- the data-consistency step the driver executes is such an expression: `Σ conj(S)·(S·x − y)` with `inp = (S, y)` -/
+def dcExpr (x : G) : IExpr G :=
+  .sum (.zip (fun s d => cmul (conj s) d) .k (.zip csub (.bcast (fun x s => cmul s x) (.const x) .k) .s))
+
+theorem dcPix_is_coil_program (sy : List (G × G)) (x : G) : dcPix sy x = (dcExpr x).eval cadd (0, 0) sy := by
+  unfold dcPix dcExpr csum
+  simp only [IExpr.eval, CExpr.eval]
+  congr 1
+  induction sy with
+  | nil => rfl
+  | cons p ps ih =>
+    simp only [List.map_cons, List.zipWith_cons_cons]
+    rw [ih]
+
+/-- `reduce_operator` likewise (`inp = (S, y)`) -/
+def reduceExpr : IExpr G := .sum (.zip (fun s d => cmul (conj s) d) .k .s)
+
+theorem reducePix_is_coil_program (sx : List (G × G)) : reducePix sx = reduceExpr.eval cadd (0, 0) sx := by
+  unfold reducePix reduceExpr csum
+  simp only [IExpr.eval, CExpr.eval]
+  congr 1
+  induction sx with
+  | nil => rfl
+  | cons p ps ih =>
+    simp only [List.map_cons, List.zipWith_cons_cons]
+    rw [ih]
+
+/-- outside the language: singling out a coil, or mixing coils with position-dependent weights (a convolution over the
+coil axis as channels) — neither is invariant (witnesses) -/
+theorem select_coil_not_invariant : selectCoil 0 0 (gather [1, 0] [3, 4]) ≠ selectCoil 0 0 [3, 4] := by decide
+
+theorem coil_as_channels_not_equivariant :
+    coilMix (fun i j => (i : Int) + 2 * j) (gather [1, 0] [3, 4]) ≠ gather [1, 0] (coilMix (fun i j => (i : Int) + 2 * j) [3, 4]) := by decide
+
 /-! ## non-vacuity -/
 
 example : Table.wf [⟨"NormUnetModel2d.norm", "mean", 3, [-1], true⟩, ⟨"reduce_operator", "sum", 5, [1], true⟩] = true := by decide
@@ -184,4 +502,36 @@ example : reducePix [((1, 2), (3, 4)), ((0, 1), (5, 6))] = reducePix [((0, 1), (
 example : ([((1, 2), (3, 4)), ((0, 1), (5, 6))] : List (G × G)).Perm [((0, 1), (5, 6)), ((1, 2), (3, 4))] :=
   List.Perm.swap _ _ _
 
+
+-- phase 3
+example : Prim.ok ⟨"Unet2d.forward", 2, "permute", 0, [0, 3, 1, 2], 0⟩ = true := by decide
+example : Prim.ok ⟨"x", 2, "permute", 0, [1, 0, 2], 0⟩ = false := by decide
+example : Prim.ok ⟨"x", 1, "cat", 0, [0], 0⟩ = false := by decide
+example : Prim.ok ⟨"x", 0, "mean", 1, [], 0⟩ = false := by decide
+example : Prim.ok ⟨"RIM.forward", 0, "max", 1, [], 1⟩ = true := by decide
+example : Prim.ok ⟨"x", 3, "view", 1, [2], 0⟩ = false := by decide
+example : FuncRow.ok ⟨"MultiCoil.forward", [⟨"MultiCoil.forward", 3, "reshape", 2, [2], 0⟩]⟩ = false := by decide
+example : FuncRow.ok ⟨"MultiCoil.forward", [⟨"MultiCoil.forward", 3, "reshape", 2, [2], 0⟩, ⟨"MultiCoil.forward", 3, "reshape", 0, [1], 0⟩]⟩ = true := by decide
+example : batchedPermute [0, 2, 1] [.node [.node [.leaf 1, .leaf 2], .node [.leaf 3, .leaf 4]]] = [.node [.node [.leaf 1, .leaf 3], .node [.leaf 2, .leaf 4]]] := rfl
+example : multiCoilFold (· + 1) 2 [[1, 2], [5, 6], [8, 9]] = [[2, 3], [6, 7], [9, 10]] := by decide
+example : ([1, 0] : List Nat).Perm (List.range ([((1, 2), (3, 4)), ((0, 1), (5, 6))] : List (G × G)).length) := by decide
+theorem natAbs_le_foldl_max (l : List Int) (m : Nat) :
+    m ≤ l.foldl (fun m a => max m a.natAbs) m ∧ ∀ a ∈ l, a.natAbs ≤ l.foldl (fun m a => max m a.natAbs) m := by
+  induction l generalizing m with
+  | nil => simp
+  | cons b l ih =>
+    obtain ⟨h1, h2⟩ := ih (max m b.natAbs)
+    refine ⟨by simp only [List.foldl_cons]; omega, ?_⟩
+    intro a ha
+    simp only [List.foldl_cons]
+    rcases List.mem_cons.mp ha with rfl | ha
+    · omega
+    · exact h2 a ha
+/-- the rank hypothesis of `stdInterp_sound` is satisfiable (any rank above the largest |axis| of the call site) -/
+example : ∃ I : Interp, SoundInterp I :=
+  ⟨stdInterp (fun p => p.args.foldl (fun m a => max m a.natAbs) 0 + 1) (fun _ t => t) (fun _ t => t) (fun _ a _ => a),
+    stdInterp_sound (fun p => p.args.foldl (fun m a => max m a.natAbs) 0 + 1) _ _ _ (by
+      intro p a ha hneg
+      have := (natAbs_le_foldl_max p.args 0).2 a ha
+      omega)⟩
 end DirectVerif.C18
